@@ -9,12 +9,17 @@ STUBS = ['zlib / libzstd: contract stubs (arbitrary status, arbitrary output wit
          'OpenMP pragmas: sequential schedule of the _OPENMP-enabled code', 'malloc of more than 1 GiB returns NULL']
 MODES = {0: 'buffer', 1: 'stdio', 2: 'mmap'}
 REG = {0: 'footer', 1: 'data-region'}
+HEAVY0_BYTES = (51, 79, 123)   # the chunks' codec bytes
+# zigzag 4 / 12 = GZIP / ZSTD: the page then comes out of the zlib / libzstd CONTRACT stub as fully symbolic bytes, i.e. the page
+# decoders run on arbitrary content inside the file reader; this does not finish in the quick budget and is a thorough obligation
+STUB_CODEC_VALUES = (4, 12)
 HEAVY0 = (48, 72, 120)   # footer windows of skeleton 0 that hold dictionary/data page offsets and sizes (path-heavy)
 
 
-def win(skel, region, w0, nwin, stride, wlen, om, timeout=1700):
-    return E2('window/skel%d/%s/%s/off%d+%dx%d/len%d' % (skel, REG[region], MODES[om], w0, nwin, stride, wlen), H,
-              defines=['-DSKEL=%d' % skel, '-DREGION=%d' % region, '-DW0=%d' % w0, '-DNWIN=%d' % nwin, '-DSTRIDE=%d' % stride, '-DWLEN=%d' % wlen, '-DOPENMODE=%d' % om],
+def win(skel, region, w0, nwin, stride, wlen, om, timeout=1700, wslice=None, wvalue=None):
+    return E2('window/skel%d/%s/%s/off%d+%dx%d/len%d%s' % (skel, REG[region], MODES[om], w0, nwin, stride, wlen, ('' if wslice is None else '/values%d-%d' % (32 * wslice, 32 * wslice + 31)) + ('' if wvalue is None else '/value%d' % wvalue)), H,
+              defines=['-DSKEL=%d' % skel, '-DREGION=%d' % region, '-DW0=%d' % w0, '-DNWIN=%d' % nwin, '-DSTRIDE=%d' % stride, '-DWLEN=%d' % wlen, '-DOPENMODE=%d' % om]
+                      + ([] if wslice is None else ['-DWSLICE=%d' % wslice]) + ([] if wvalue is None else ['-DWVALUE=%d' % wvalue]),
               all_lib=True, timeout=timeout, stubs=STUBS, summaries=['crc32'], max_paths=400000, max_steps=1500000, fork_max=16, max_depth=64, validate=3,
               bounds='valid skeleton file %d (real writer); %d window positions (offset %d.., stride %d) in the %s, %d symbolic byte(s) each; open via %s; '
                      'get_column with symbolic row-group/column index in -1..2 / -1..3, read_batch, skip, statistics, batch reader, close; '
@@ -46,7 +51,14 @@ def obligations(tier):
         for w0 in range(0, 192, 8):
             if w0 in HEAVY0:      # windows over the chunk's page offsets: one position per obligation
                 for k in range(8):
-                    o.append(win(0, 0, w0 + k, 1, 1, 1, 0, 620))
+                    if w0 + k in HEAVY0_BYTES:   # one byte whose values steer the page loaders through the whole file: 8 value-range slices
+                        for s in range(1, 8):
+                            o.append(win(0, 0, w0 + k, 1, 1, 1, 0, 620, wslice=s))
+                        for v in range(32):
+                            if v not in STUB_CODEC_VALUES:
+                                o.append(win(0, 0, w0 + k, 1, 1, 1, 0, 620, wvalue=v))
+                    else:
+                        o.append(win(0, 0, w0 + k, 1, 1, 1, 0, 620))
             else:
                 o.append(win(0, 0, w0, 8, 1, 1, 0, 620))
         for w0 in range(0, 48, 8):
@@ -55,6 +67,9 @@ def obligations(tier):
         o.append(win(0, 1, 0, 6, 13, 1, 2, 620))
         o.append(win(1, 0, 0, 8, 29, 1, 0, 620)); o.append(win(1, 1, 0, 8, 11, 1, 0, 620))
     else:
+        for b in HEAVY0_BYTES:
+            for v in STUB_CODEC_VALUES:
+                o.append(win(0, 0, b, 1, 1, 1, 0, 3400, wvalue=v))
         for skel in (0, 1):
             for w0 in range(0, 320, 16):
                 o.append(win(skel, 0, w0, 16, 1, 1, 0, 3400))
